@@ -128,6 +128,14 @@ def oracle(case, init_snap, obs):
                         yield ("copy-different-residents", {"step": i, "worker": wi})
             if op["op"] == "copy" and src["placed"] != new["placed"]:
                 yield ("copy-different-pool-placements", {"step": i})
+        # pool-level aggregate getters = sum over the pool's workers (what the utilisation rows and the
+        # pool-level fit checks of the planners read)
+        for oi, (pool, agg) in enumerate(zip(snap, o.get("pool_agg") or [])):
+            for key in ("q_avail", "q_total", "q_alloc"):
+                want = [sum(w[key][ki] for w in pool["workers"]) for ki in range(len(agg[key]))]
+                if agg[key] != want:
+                    yield (f"pool-aggregate-differs-from-sum-of-workers getter={key} after={op['op']}", {"step": i, "object": oi, "pool": agg[key], "workers": want})
+                    break
         # per-worker ledger equations
         for oi, pool in enumerate(snap):
             for wi, w in enumerate(pool["workers"]):
@@ -218,7 +226,7 @@ def impl_run(case):
     obs = []
     for op in case["ops"]:
         out, ret = w.apply(op)
-        obs.append({"out": out, "ret": ret, "snap": w.snap()})
+        obs.append({"out": out, "ret": ret, "snap": w.snap(), "pool_agg": w.pool_agg()})
     return init, obs
 
 
@@ -333,7 +341,7 @@ def run(chk: common.Check):
                 continue
             if case.get("stream") == "alias":
                 continue  # model is value-semantic by design; the oracle decides this stream
-            d = first_diff(obs, rep["obs"])
+            d = first_diff([{k: v for k, v in o.items() if k != "pool_agg"} for o in obs], rep["obs"])
             if d:
                 disagreements.append((ci, d))
             else:
@@ -345,7 +353,7 @@ def run(chk: common.Check):
         def fails(c):
             i2, o2 = impl_run(c)
             r2 = common.run_driver([{k: v for k, v in c.items() if k != "stream"}])[0]
-            return first_diff(o2, r2.get("obs")) is not None
+            return first_diff([{k: v for k, v in o.items() if k != "pool_agg"} for o in o2], r2.get("obs")) is not None
 
         small = shrink(cases[ci], fails)
         broken.append(f"correspondence ledger: {len(disagreements)} case(s) differ; first: {d}")
